@@ -22,6 +22,18 @@ KANI = {
 # Witness tests: fixed concrete scenarios (integration tests over the public API, kept in /verif/witness) that exhibit the
 # violation of the paired obligations on the real code.  Verus gives no counterexample; when a paired obligation fails the
 # witness is run against the current tree: if it fails too, the VIOLATION carries a replayed failing input.
+# Bounded exhaustive stand-ins (in-crate tests under /verif/enum, appended to the source file of a scratch copy): they run only when a
+# Verus unit of the property is UNDECIDED (a body outside Verus' subset after an edit of /repo).  A failing one is a violation whose
+# failing input is in the test's message; a passing one leaves the check undecided.  Never counted as proved.
+ENUM_TESTS = {
+  "egress_push_priority": {
+    "file": "enum/egress_push_priority.rs", "props": ["C01", "C19"], "pairs_fn": ["EgressBuffer::push_priority"], "unit": "egress",
+    "append_to": "core/src/sessionx/egress_buffer.rs", "test_filter": "verif_enum_push_priority",
+    "bound": "0..=3 queued chunks of 3/2/2 bytes, message counts 0/1, every partial write of the head chunk (34 cases)",
+    "what": "EgressBuffer::push_priority followed by writing everything out with current_slice()/advance(): the control frame lands at a chunk boundary, ahead of queued data, never inside the partially written head chunk; counters follow",
+  },
+}
+
 WITNESS_TESTS = {
   "c01_order_mixed_sizes": {
     "file": "witness/c01_order_mixed_sizes.rs", "props": ["C01"],
@@ -120,7 +132,7 @@ PROPS = {
 
 PROPS["C01"] = {
   "units": ["egress", "enc", "framer", "batch", "hsout", "drivers", "dealerq", "dealerproc", "inprocrd"],
-  "kani_quick": [], "kani_thorough": [],
+  "kani_quick": [], "kani_thorough": [], "enum_fallback": ["egress_push_priority"],
   "claim": "Session-local byte-stream conservation, proved unbounded on the verbatim functions: EgressBuffer (push appends at the tail, advance(n) drops exactly n bytes from the front for every n and every chunking, "
            "push_priority inserts only after the partially written head chunk, counters follow the view) and the batch encoders (frame_contiguous / frame_vectored / NullFramer wrappers emit exactly enc_batches of the frames in batch order: "
            "nothing reordered, merged, dropped or duplicated); the two batch-assembly regions of the session actor's operational loop (carry-over arm and core-pipe arm, extracted verbatim as regions) keep 'batch ++ carry-over ++ core pipe' equal to the FIFO they started from, "
@@ -225,7 +237,7 @@ PROPS["C07"] = {
 }
 PROPS["C19"] = {
   "units": ["engine", "egress", "command", "hsout"],
-  "kani_quick": [], "kani_thorough": [],
+  "kani_quick": [], "kani_thorough": [], "enum_fallback": ["egress_push_priority"],
   "claim": "Proved for all (IVL, TIMEOUT, now, last_activity, last_ping, waiting) on the verbatim on_tick/process_data: no heartbeat outside the Data phase or on ZMTP/2.0; a PING goes out only if none is outstanding and at least IVL elapsed since the last activity, and is sent at the first tick where that holds; "
            "the connection is closed by on_tick only when a PING has been outstanding for at least TIMEOUT; every received PING is answered by exactly one PONG with the same context bytes, in order; any inbound frame clears the outstanding-PING state (traffic keeps the connection alive). "
            "EgressBuffer::push_priority puts control frames ahead of queued data but only at a chunk boundary (after a partially written chunk), and the session's operational loop hands every PONG to it (never a direct socket write: region op_net_actions); "
